@@ -1,5 +1,6 @@
 import Ts.Gen.PsiGen
 import Ts.Lemmas.C03d
+import Ts.Props.C04
 /-!
 # Statement-level tie — the section reassembly chain (audited with C03, C04, C10, C11)
 
@@ -422,32 +423,26 @@ theorem overS_start (fz : Bool) (hs : cfg.sectionSyntax = true) (ok : LowOk cfg 
       = rmap (fun r => ((concP r.1, concL r.1), r.2)) (Psi.procStart cfg s h b off) := by
   unfold overS thenCalls procStep SectionSyntaxSectionProcessor.start_section Psi.procStart
   simp only [hs, if_true, Slice.len, COMMON, TSH, SECTION_LIMIT]
-  cases hsy : h.syntaxInd
-  · simp only [Bool.not_false, if_true, R.pure_eq, R.ok_bind, foldCalls_nil, rmap_ok, concP]
-    exact congrArg R.ok (Prod.ext (Prod.ext rfl (ok.frame s { s with ignoreRest := true } rfl rfl rfl rfl).symm) rfl)
-  · simp only [Bool.not_true, Bool.false_eq_true, if_false]
-    by_cases h8 : b.length < 3 + 5
-    · simp only [h8, decide_true, if_true, R.pure_eq, R.ok_bind, foldCalls_nil, rmap_ok, concP]
-      exact congrArg R.ok (Prod.ext (Prod.ext rfl (ok.frame s { s with ignoreRest := true } rfl rfl rfl rfl).symm) rfl)
-    · simp only [h8, decide_false, Bool.false_eq_true, if_false]
-      by_cases hl : h.sectionLength > 1021
-      · simp only [hl, decide_true, if_true, R.pure_eq, R.ok_bind, foldCalls_nil, rmap_ok, concP]
-        exact congrArg R.ok (Prod.ext (Prod.ext rfl (ok.frame s { s with ignoreRest := true } rfl rfl rfl rfl).symm) rfl)
-      · have h3 : 3 ≤ b.length := by omega
-        have h5 : 5 ≤ (b.drop 3).length := by rw [List.length_drop]; omega
-        have hd5 : decide ((b.drop 3).length ≥ 5) = true := by simpa using h5
-        have ha : assertR (decide ((b.drop 3).length ≥ 5)) "assert!(buf.len() >= Self::SIZE)" = .ok () := by
-          rw [hd5]; rfl
-        simp only [hl, decide_false, Bool.false_eq_true, if_false, from_ok ⟨b, some off⟩ 3 h3, sliceFrom_ok b 3 h3,
-          Stmt.tshNew, TSH, R.pure_eq, R.ok_bind, List.nil_append, foldCalls_one]
-        simp only [assertR, ge_iff_le, h5, decide_true, if_true, R.ok_bind, List.nil_append, foldCalls_one]
-        have hfr : concL s = concL { s with ignoreRest := false } := (ok.frame s { s with ignoreRest := false } rfl rfl rfl rfl).symm
-        rw [hfr, ok.start _ h ⟨b.drop 3, Option.map (· + 3) (some off)⟩ b off rfl h3 h5]
-        cases hb : Psi.dedupStart cfg { s with ignoreRest := false } h b off with
-        | panic m => rfl
-        | ok r =>
-          have := dedupStart_ir cfg _ h b off r hb
-          simp only [rmap_ok, R.ok_bind, concP, this]
+  -- the three rejections, in whichever order the source tests them
+  have hrej : (R.ok (((⟨true⟩ : SectionSyntaxSectionProcessor.Self), concL s), ([] : List Delivery)) : R _)
+      = R.ok ((concP { s with ignoreRest := true }, concL { s with ignoreRest := true }), []) :=
+    congrArg R.ok (Prod.ext (Prod.ext rfl (ok.frame s { s with ignoreRest := true } rfl rfl rfl rfl).symm) rfl)
+  by_cases h8 : b.length < 3 + 5 <;> by_cases hl : h.sectionLength > 1021 <;> cases hsy : h.syntaxInd <;>
+    simp only [h8, hl, decide_true, decide_false, Bool.not_true, Bool.not_false, Bool.false_eq_true, if_true, if_false,
+      R.pure_eq, R.ok_bind, foldCalls_nil, rmap_ok] <;> try exact hrej
+  -- accepted: syntax bit set, at least 8 bytes present, length within the limit
+  have h3 : 3 ≤ b.length := by omega
+  have h5 : 5 ≤ (b.drop 3).length := by rw [List.length_drop]; omega
+  simp only [from_ok ⟨b, some off⟩ 3 h3, sliceFrom_ok b 3 h3, Stmt.tshNew, TSH, R.pure_eq, R.ok_bind,
+    List.nil_append, foldCalls_one]
+  simp only [assertR, ge_iff_le, h5, decide_true, if_true, R.ok_bind, List.nil_append, foldCalls_one]
+  have hfr : concL s = concL { s with ignoreRest := false } := (ok.frame s { s with ignoreRest := false } rfl rfl rfl rfl).symm
+  rw [hfr, ok.start _ h ⟨b.drop 3, Option.map (· + 3) (some off)⟩ b off rfl h3 h5]
+  cases hb : Psi.dedupStart cfg { s with ignoreRest := false } h b off with
+  | panic m => rfl
+  | ok r =>
+    have := dedupStart_ir cfg _ h b off r hb
+    simp only [rmap_ok, R.ok_bind, concP, this]
 
 end over
 
@@ -525,22 +520,19 @@ theorem overC_start (fz : Bool) (s : St) (h : Header) (b : Bytes) (off : Nat) :
       = rmap (fun r => ((concPC r.1, concBC r.1), r.2)) (Psi.procStart Psi.rawCompact s h b off) := by
   unfold overC thenCalls procCStep CompactSyntaxSectionProcessor.start_section Psi.procStart Psi.dedupStart
   simp only [Psi.rawCompact, Bool.false_eq_true, if_false, Slice.len, COMMON, SECTION_LIMIT]
-  cases hsy : h.syntaxInd
-  · simp only [Bool.false_eq_true, if_false]
-    by_cases h8 : b.length < 3
-    · simp only [h8, decide_true, if_true, R.pure_eq, R.ok_bind, foldCalls_nil, rmap_ok, concPC]; rfl
-    · simp only [h8, decide_false, Bool.false_eq_true, if_false]
-      by_cases hl : h.sectionLength > 1021
-      · simp only [hl, decide_true, if_true, R.pure_eq, R.ok_bind, foldCalls_nil, rmap_ok, concPC]; rfl
-      · simp only [hl, decide_false, Bool.false_eq_true, if_false, R.pure_eq, R.ok_bind, List.nil_append, foldCalls_one]
-        have hcb : concBC s = concBC { s with ignoreRest := false } := rfl
-        rw [hcb, bufC_start fz _ h ⟨b, some off⟩ off rfl]
-        cases hb : Psi.bufStart { s with ignoreRest := false } h b off with
-        | panic m => rfl
-        | ok r =>
-          have := (frame_of_setB (bufStart_setB _ h b off) r hb).1
-          simp only [rmap_ok, R.ok_bind, concPC, this]
-  · simp only [if_true, R.pure_eq, R.ok_bind, foldCalls_nil, rmap_ok, concPC]; rfl
+  -- the three rejections, in whichever order the source tests them
+  by_cases h8 : b.length < 3 <;> by_cases hl : h.sectionLength > 1021 <;> cases hsy : h.syntaxInd <;>
+    simp only [h8, hl, decide_true, decide_false, Bool.false_eq_true, if_true, if_false,
+      R.pure_eq, R.ok_bind, foldCalls_nil, rmap_ok, concPC] <;> try rfl
+  -- accepted
+  simp only [List.nil_append, foldCalls_one]
+  have hcb : concBC s = concBC { s with ignoreRest := false } := rfl
+  rw [hcb, bufC_start fz _ h ⟨b, some off⟩ off rfl]
+  cases hb : Psi.bufStart { s with ignoreRest := false } h b off with
+  | panic m => rfl
+  | ok r =>
+    have := (frame_of_setB (bufStart_setB _ h b off) r hb).1
+    simp only [rmap_ok, R.ok_bind, concPC, this]
 
 /-! ### `SectionPacketConsumer::consume` over any chain that realises the model's processor level -/
 
@@ -763,26 +755,15 @@ theorem tie_stmt_crc (fz : Bool) (h : Header) (t d : Slice) (h3 : 3 ≤ d.bytes.
     rw [← this]
     simp only [byteD_take _ 3 1 (by omega)]
   unfold CrcCheckWholeSectionSyntaxPayloadParser.section Psi.crcPass
-  simp only [byteAt_ok d.bytes 1 (by omega), R.ok_bind, ← hs, Slice.len, COMMON, TSH]
+  -- the checksum is total (`sum32_eq_bitserial`), so the length test and the checksum test may come in
+  -- either order
+  simp only [byteAt_ok d.bytes 1 (by omega), R.ok_bind, ← hs, Slice.len, COMMON, TSH, Stmt.sum32,
+    Ts.Props.C04.sum32_eq_bitserial]
   cases h.syntaxInd
   · rfl
   · simp only [assertR, if_true, R.ok_bind]
-    by_cases hl : d.bytes.length < 3 + 5 + 4
-    · simp only [hl, decide_true, if_true, R.pure_eq, rmap_ok, erase_ok]; rfl
-    · simp only [hl, decide_false, Bool.false_eq_true, if_false]
-      cases fz
-      · simp only [Bool.not_false, if_true, Stmt.sum32, Bool.false_eq_true, if_false, R.bind_assoc, rmap_bind, R.pure_eq,
-          R.ok_bind]
-        cases Crc.sum32 d.bytes with
-        | panic m => rfl
-        | ok c =>
-          simp only [R.ok_bind]
-          by_cases hc : c = 0
-          · subst hc; rfl
-          · have h1 : (c != 0) = true := by simp [hc]
-            have h2 : (c == 0) = false := by simp [hc]
-            simp only [h1, h2, if_true, R.pure_eq, rmap_ok, erase_ok, Bool.false_eq_true, if_false]
-      · simp only [Bool.not_true, Bool.false_eq_true, if_false, if_true, R.pure_eq, R.ok_bind, rmap_ok, erase_ok]; rfl
+    by_cases hl : d.bytes.length < 3 + 5 + 4 <;> cases fz <;> by_cases hc : Ts.CrcSpec.crc d.bytes = 0 <;>
+      simp [hl, hc, erase, rmap]
 
 /-! ### non-vacuity: the translated chain evaluated on concrete packets -/
 
